@@ -497,6 +497,11 @@ func (v *Validators) PayRewardsV5Fix(height uint64, period int64) (moreRewards *
 				continue
 			}
 
+			// a validator punished for byzantine behaviour in this block has a zeroed total stake
+			if validator.GetTotalBipStake().Sign() == 0 {
+				continue
+			}
+
 			reward := big.NewInt(0).Set(totalReward)
 			reward.Mul(reward, stake.BipValue)
 
